@@ -31,4 +31,13 @@ for id in "${ids[@]}"; do
   fi
   git -C "$REPO" worktree remove --force "$wt"
 done
+# negative examples: behaviour-preserving patches must not add a report to ANY property
+if [ "${SELFTEST_NEGATIVES:-1}" = "1" ] && [ $# -eq 0 ]; then
+  if python3 "$HERE/tools/check_negative.py" > /tmp/selftest-neg.out 2>&1; then
+    echo "selftest: $(grep -c silent /tmp/selftest-neg.out) behaviour-preserving patches silent"
+  else
+    grep -v silent /tmp/selftest-neg.out; echo "selftest: FALSE ALARM on a behaviour-preserving patch"; fail=1
+  fi
+  rm -f /tmp/selftest-neg.out
+fi
 exit $fail
